@@ -4,6 +4,8 @@ Request: {"m": "<model>", …model-specific fields…}.  Reply: {"ok": <value>} 
 The handlers call the same definitions the theorems in LianVerif/Properties are about.
 -/
 import LianVerif.Drv.PathStore
+import LianVerif.Drv.Frames
+import LianVerif.Drv.Sched
 
 open Lean LianVerif.Drv
 
@@ -11,6 +13,8 @@ def dispatch (j : Json) : Except String Json := do
   let m ← getStr (← field j "m")
   match m with
   | "pathstore" => LianVerif.Drv.PathStore.handle j
+  | "frames" => LianVerif.Drv.Frames.handle j
+  | "sched" => LianVerif.Drv.Sched.handle j
   | _ => throw s!"unknown model {m}"
 
 partial def loop (hin hout : IO.FS.Stream) : IO Unit := do
